@@ -57,6 +57,11 @@ CHECKS = {
   text="Model checking by trace validation: every fixed-point operator x operand kind pair (fixed-point, secret int, secret bool, int, float, public fixed-point) x both orders x all representable values of a window x resolutions 1..3 (plus pow, shifts, unary ops, val() and conversions) is run on the real code; TLC computes the exact representation with FxpRef and compares.",
   note="Only exactly representable floats; representations compared as exact integers (fields large enough that nothing wraps). Known finding: fxp ** n reduces modulo p.",
   design="5/C14"),
+ "C15": dict(
+  technique="TLC-generated access histories (ArrayMem.tla) replayed into the code and validated against the list-semantics spec (TraceArray.tla); Soundness.tla for bounds enforcement and uniqueness; TraceShape.tla across index values",
+  text="Model checking with conformance: ArrayMem.tla specifies a Python list (1-D length 1..3, 2x2) with get/set/row actions incl. out-of-range; TLC enumerates every history of up to 2 (quick) / 3 (thorough) accesses with every index in -1..len, each is replayed with secret indices on the real Array, and after every access the outcome, returned value and the contents of all cells reported by the code must equal the spec's; additionally out-of-range indices are unsatisfiable in-circuit, read values/written cells are unique under an adversarial witness, and constraints are identical for all index values.",
+  note="Bounded shapes/histories; cells mix secrets and constants; small prime fields.",
+  design="5/C15"),
 }
 
 NOT_YET = "check not built yet in this round (planned, see DESIGN.md section 5)"
